@@ -37,6 +37,8 @@ pub struct WorkspaceManager {
     pub workspace_folders: Vec<WorkspaceFolder>,
     pub watcher: Option<notify::RecommendedWatcher>,
     open_file_texts: HashMap<Uri, String>,
+    /// the keys of `open_file_texts`, shared with the debounced reindex task
+    open_file_uris: Arc<Mutex<HashSet<Uri>>>,
     open_file_state_version: u64,
     pub match_file_pattern: WorkspaceFileMatcher,
     workspace_diagnostic_level: Arc<AtomicU8>,
@@ -63,6 +65,7 @@ impl WorkspaceManager {
             workspace_folders: Vec::new(),
             watcher: None,
             open_file_texts: HashMap::new(),
+            open_file_uris: Arc::new(Mutex::new(HashSet::new())),
             open_file_state_version: 0,
             match_file_pattern: WorkspaceFileMatcher::default(),
             workspace_diagnostic_level: Arc::new(AtomicU8::new(
@@ -94,11 +97,17 @@ impl WorkspaceManager {
     }
 
     pub fn sync_open_file(&mut self, uri: Uri, text: String) {
+        if let Ok(mut uris) = self.open_file_uris.lock() {
+            uris.insert(uri.clone());
+        }
         self.open_file_texts.insert(uri, text);
         self.open_file_state_version = self.open_file_state_version.wrapping_add(1);
     }
 
     pub fn close_open_file(&mut self, uri: &Uri) {
+        if let Ok(mut uris) = self.open_file_uris.lock() {
+            uris.remove(uri);
+        }
         self.open_file_texts.remove(uri);
         self.open_file_state_version = self.open_file_state_version.wrapping_add(1);
     }
@@ -182,6 +191,7 @@ impl WorkspaceManager {
         let lsp_features = self.lsp_features.clone();
         let reindex_token = self.reindex_token.clone();
         let workspace_diagnostic_level = self.workspace_diagnostic_level.clone();
+        let open_file_uris = self.open_file_uris.clone();
         tokio::spawn(async move {
             cancel_token.wait().await;
             if cancel_token.is_cancelled() {
@@ -192,8 +202,13 @@ impl WorkspaceManager {
             // Perform reindex with minimal lock holding time
             {
                 let mut analysis = analysis.write().await;
+                // documents open in the editor stay, even if they were never saved to disk
+                let open_uris: HashSet<Uri> = open_file_uris
+                    .lock()
+                    .map(|uris| uris.clone())
+                    .unwrap_or_default();
                 // 在重新索引之前清理不存在的文件
-                analysis.cleanup_nonexistent_files();
+                analysis.cleanup_nonexistent_files_except(&open_uris);
                 analysis.reindex();
                 // Release lock immediately after reindex
                 drop(analysis);
